@@ -400,12 +400,16 @@ func (c *FnCtx) axiomSMT(ax *AxiomDef) (string, error) {
 		return fmt.Sprintf("(assert %s)\n", g), nil
 	}
 	pat := ""
-	for _, t := range ax.Trigger {
-		tt, err := en.Eval(t)
-		if err != nil {
-			return "", err
+	for _, multi := range ax.Trigger {
+		var ts []string
+		for _, t := range multi {
+			tt, err := en.Eval(t)
+			if err != nil {
+				return "", err
+			}
+			ts = append(ts, tt.S)
 		}
-		pat += " :pattern (" + tt.S + ")"
+		pat += " :pattern (" + strings.Join(ts, " ") + ")"
 	}
 	if pat != "" {
 		return fmt.Sprintf("(assert (forall (%s) (! %s%s)))\n", strings.Join(binders, " "), g, pat), nil
